@@ -693,6 +693,8 @@ def classify(tr, line, act, why, what):
         where = "%s%s" % (act, (":" + ev.get("o")) if ev.get("o") else "")
         if kind == "inv":
             return "connect:inv:%s@%s" % (",".join(why[1]), where)
+        if kind == "guard" and isinstance(why[1], dict):
+            return "connect:guard:model-at=%s:got=%s" % (why[1].get("pc", "?"), where)
         return "connect:%s@%s:%s:got=%s" % (kind, where, c["env"], ev.get("r", ""))
     if kind == "inv":
         return "sense:inv:%s@%s" % (",".join(why[1]), act)
@@ -720,16 +722,30 @@ def selftests_connect(tr):
     return out
 
 
-def mc(ck, module, cfgfile, need, reach_cfg, timeout):
-    r = tlc.run(module, cfgfile, PID + "/" + module[:-4], workers=16, timeout=timeout)
-    if not r.ok:
-        ck.violation("spec:%s:%s" % (module[:-4], ",".join(r.violated or ["deadlock"])),
-                     "TLC found a violation in the model: %s" % str(r.error_trace)[:3000])
-    ck.cover(states=r.distinct, transitions=r.generated)
-    hit, _ = tlc.witnesses(module, reach_cfg, PID + "/" + module[:-4] + "_reach", need, timeout=timeout, workers=2)
-    if set(need) - hit:
-        raise tlc.TLCError("vacuous model %s: witnesses not reached: %s" % (module, sorted(set(need) - hit)))
-    return r
+class McJob(object):
+    """model checking + reachability witnesses of one module, started in the background (the JVMs run next to
+    each other and next to the real executions); results are collected in a fixed order"""
+
+    def __init__(self, pool, module, cfgfile, need, reach_cfg, timeout, workers=16):
+        self.module, self.need = module, need
+        tag = PID + "/" + module[:-4] + ("_" + cfgfile[:-4].split("_")[-1] if need is None else "")
+        self.f_run = pool.submit(tlc.run, module, cfgfile, tag, workers=workers, timeout=timeout)
+        self.f_wit = None
+        if need:
+            self.f_wit = pool.submit(tlc.witnesses, module, reach_cfg, PID + "/" + module[:-4] + "_reach", need,
+                                     timeout=timeout, workers=2)
+
+    def result(self, ck, label=None):
+        r = self.f_run.result()
+        if not r.ok:
+            ck.violation("spec:%s:%s" % (label or self.module[:-4], ",".join(r.violated or ["deadlock"])),
+                         "TLC found a violation in the model: %s" % str(r.error_trace)[:3000])
+        ck.cover(states=r.distinct, transitions=r.generated)
+        if self.f_wit is not None:
+            hit, _ = self.f_wit.result()
+            if set(self.need) - hit:
+                raise tlc.TLCError("vacuous model %s: witnesses not reached: %s" % (self.module, sorted(set(self.need) - hit)))
+        return r
 
 
 W_CONNECT = ["W_RetTrue", "W_RetObj", "W_RetFalse", "W_RetNoneNoOpt", "W_TermInPresence", "W_ReleaseFalseLoops",
@@ -743,22 +759,15 @@ def run(tier, seed):
     quick = tier == "quick"
     kmax, tmax = (1, 3) if quick else (2, 6)
 
-    # 1. exhaustive model checking of both specs
-    r1 = mc(ck, "ClfConnect.tla", "MC_ClfConnect.cfg" if quick else "MC_ClfConnect_thorough.cfg", W_CONNECT,
-            "MC_ClfConnect_reach.cfg", 400 if quick else 1500)
-    m = re.search(r"Finished computing initial states: (\d+) distinct", r1.out)
-    ninit = int(m.group(1)) if m else -1
+    # 1. exhaustive model checking of both specs (in the background, collected below in a fixed order)
+    import concurrent.futures as cf
+    pool = cf.ThreadPoolExecutor(max_workers=6)
+    j1 = McJob(pool, "ClfConnect.tla", "MC_ClfConnect.cfg" if quick else "MC_ClfConnect_thorough.cfg", W_CONNECT,
+               "MC_ClfConnect_reach.cfg", 400 if quick else 1500)
+    j2 = McJob(pool, "ClfSense.tla", "MC_ClfSense.cfg" if quick else "MC_ClfSense_thorough.cfg", W_SENSE,
+               "MC_ClfSense_reach.cfg", 300 if quick else 900, workers=8)
+    j3 = McJob(pool, "ClfSense.tla", "MC_ClfSense_pause.cfg", None, None, 300, workers=4)
     full = list(grid(kmax, tmax))
-    if ninit != len(full) or len({cfg_id(c) for c in full}) != len(full):
-        raise tlc.TLCError("grid mismatch: TLC has %d initial configurations, the harness enumerates %d" % (ninit, len(full)))
-    ck.cover(connect_configurations=len(full), mc_depth_connect=r1.depth)
-    r2 = mc(ck, "ClfSense.tla", "MC_ClfSense.cfg" if quick else "MC_ClfSense_thorough.cfg", W_SENSE,
-            "MC_ClfSense_reach.cfg", 300 if quick else 900)
-    r3 = tlc.run("ClfSense.tla", "MC_ClfSense_pause.cfg", PID + "/ClfSense_pause", workers=8, timeout=300)
-    if not r3.ok:
-        ck.violation("spec:ClfSense(pauses):" + ",".join(r3.violated or ["deadlock"]),
-                     "TLC found a violation in the pause model: %s" % str(r3.error_trace)[:3000])
-    ck.cover(states=r3.distinct, transitions=r3.generated)
 
     # 2. the grid on the real frontend
     rnd = random.Random(seed)
@@ -819,6 +828,15 @@ def run(tier, seed):
             traces.append(run_connect(c, ts.clock))
         sessions, maxlen = sense_sessions(tier, seed, ts.clock)
         straces = [s.run() for s in sessions]
+    r1 = j1.result(ck)
+    m = re.search(r"Finished computing initial states: (\d+) distinct", r1.out)
+    ninit = int(m.group(1)) if m else -1
+    if ninit != len(full) or len({cfg_id(c) for c in full}) != len(full):
+        raise tlc.TLCError("grid mismatch: TLC has %d initial configurations, the harness enumerates %d" % (ninit, len(full)))
+    ck.cover(connect_configurations=len(full), mc_depth_connect=r1.depth)
+    r2 = j2.result(ck)
+    j3.result(ck, "ClfSense(pauses)")
+    pool.shutdown()
     # the self-test must not depend on what the code under test did: fall back to any trace
     good = next((t for t in traces if any(e["a"] == "Release" for e in t["ev"]) and t["ev"][-1]["r"] == "True"), traces[0])
     self_t = selftests_connect(good)
